@@ -824,20 +824,35 @@ func (e *Engine) evalLoopClauses(st *State, fr *Frame, cls []Clause, iterKey str
 			typs[fv.Name()] = fv.Type()
 		}
 	}
-	// address-taken locals (SSA Allocs carry the variable's name): their current value
-	for _, b := range fr.fn.Blocks {
-		for _, in := range b.Instrs {
-			if al, ok := in.(*ssa.Alloc); ok && al.Comment != "" && al.Comment != "complit" {
-				if _, taken := vars[al.Comment]; taken {
-					continue
-				}
-				if v, ok := st.rregs(fr)[al]; ok {
-					if p, ok := v.(VPtr); ok {
-						vars[al.Comment] = e.load(st, p)
-						typs[al.Comment] = al.Type().Underlying().(*types.Pointer).Elem()
+	// address-taken locals (SSA Allocs carry the variable's name): their current value; the same for the states at
+	// the loop head and at loop entry (athead / atentry)
+	localsIn := func(s *State) map[string]Value {
+		m := map[string]Value{}
+		for _, b := range fr.fn.Blocks {
+			for _, in := range b.Instrs {
+				if al, ok := in.(*ssa.Alloc); ok && al.Comment != "" && al.Comment != "complit" {
+					if v, ok := s.rregs(fr)[al]; ok {
+						if p, ok := v.(VPtr); ok {
+							if _, have := s.heap[p.Cell]; have {
+								m[al.Comment] = e.load(s, p)
+							}
+						}
 					}
 				}
 			}
+		}
+		return m
+	}
+	for _, b := range fr.fn.Blocks {
+		for _, in := range b.Instrs {
+			if al, ok := in.(*ssa.Alloc); ok && al.Comment != "" && al.Comment != "complit" {
+				typs[al.Comment] = al.Type().Underlying().(*types.Pointer).Elem()
+			}
+		}
+	}
+	for k, v := range localsIn(st) {
+		if _, taken := vars[k]; !taken {
+			vars[k] = v
 		}
 	}
 	var out []Term
@@ -850,9 +865,11 @@ func (e *Engine) evalLoopClauses(st *State, fr *Frame, cls []Clause, iterKey str
 		if iterKey != "" {
 			if h, ok := st.loopHead[iterKey]; ok {
 				env.head = h.clone()
+				env.headVars = localsIn(env.head)
 			}
 			if h, ok := st.loopEntry[iterKey]; ok {
 				env.entry = h.clone()
+				env.entryVars = localsIn(env.entry)
 			}
 		}
 		// the lets of the enclosing function's contract are available to its loop clauses
